@@ -377,3 +377,37 @@ def classifier_total(ctx: Ctx, rule: str):
         xv = u(env["X"])
         ctx.require_at(rule, isa, st, [[f"isinstance({xv}.__context__, CancelledError)"]],
                        instance="the walk follows __context__ only from one CancelledError to another (an ordinary exception in between ends it)", what="advance")
+
+
+# ----------------------------------------------------------------------------- a parameter reaches a keyword of a sink call
+def forwards_param(f: Func, param: str, sinks, kw: str | None = None) -> list:
+    """call sites in f (own body) of one of `sinks` that receive the parameter `param` unchanged as keyword `kw`"""
+    kw = kw or param
+    out = []
+    for n in own_walk(f.node):
+        if isinstance(n, ast.Call) and call_name(n) in sinks:
+            for k in n.keywords:
+                if k.arg == kw and isinstance(k.value, ast.Name) and k.value.id == param:
+                    out.append(n)
+    return out
+
+
+def shield_chain(ctx: Ctx, rule: str):
+    """the `shield` argument of the timeout helpers reaches the scope that is actually entered"""
+    sinks = {"create_cancel_scope", "CancelScope", "fail_at", "fail_after", "move_on_at", "move_on_after"}
+    for q in ("fail_at", "fail_after", "move_on_at", "move_on_after"):
+        f = ctx.fn(q, TASKS)
+        params = [a.arg for a in f.node.args.args + f.node.args.kwonlyargs]
+        ok = "shield" in params and len(forwards_param(f, "shield", sinks)) >= 1
+        ctx.ob(rule, f, f"{q}(..., shield=...) passes its shield flag on to the scope it creates", ok,
+               detail="" if ok else f"{q} does not forward `shield=shield` to any scope-creating call: a block declared shielded would be interruptible from outside",
+               by=("shield=shield",))
+    ccs = ctx.fn("AsyncIOBackend.create_cancel_scope", A)
+    ok = len(forwards_param(ccs, "shield", {"CancelScope"})) == 1
+    ctx.ob(rule, ccs, "the backend factory passes shield on to CancelScope", ok, detail="" if ok else "create_cancel_scope drops shield", by=("CancelScope(shield=shield)",))
+    init = ctx.fn("CancelScope.__init__", A)
+    ok = len(ctx.sites(init, "self._shield = shield")) == 1
+    ctx.ob(rule, init, "the scope stores the shield flag it was given", ok, detail="" if ok else "CancelScope.__init__ does not store shield", by=("self._shield = shield",))
+    pub = ctx.fn("CancelScope.__new__", TASKS)
+    ok = len(forwards_param(pub, "shield", {"create_cancel_scope"})) == 1
+    ctx.ob(rule, pub, "anyio.CancelScope(shield=...) passes shield to the backend factory", ok, detail="" if ok else "the public CancelScope factory drops shield", by=("shield=shield",))
